@@ -88,13 +88,14 @@ P('C10', ['changeCluster', 'doChangeCluster', 'checkCommandsToApply.membership',
   'Follower-side apply-on-append / rollback-on-truncate loops (O10.3) are loop contracts in unit msg.append_entries.membership. Safety of single-server changes across nodes is ' + A_RAFT + ' extended to membership.',
   assumptions=[A_RAFT, 'I9 as quantified hypothesis', 'observers never carry member addresses (O14.1)'], lemmas=['FRAME-C10', 'CALLERS-C10'])
 
-P('C11', ['getEntries', 'replicated.newFunc', 'sendAppendEntries', 'msg.append_entries', 'doApplyCommand', 'applyCommand', 'tick.leader'],
+P('C11', ['getEntries', 'replicated.newFunc', 'sendAppendEntries', 'msg.append_entries', 'doApplyCommand', 'applyCommand', 'tick.leader',
+          'ResizableFile.write', 'FileJournal.add', 'FileJournal.reopen'],
   'Batching (non-empty contiguous batch, O11.2), the big-entry chunk loop as a loop contract (first chunk start, finish exactly on the '
   'last chunk, each chunk the slice at its position, O11.3), follower reassembly (O11.4), decode/dispatch of the three command shapes '
   '(O11.1), and no exception escaping the send loop, the handler or the apply path (O11.5), for all sizes.',
-  'Journal growth for big records is C08 (ResizableFile.write). The argument packing inside the `replicated` decorator closure is unit replicated.newFunc; the frame '
+  'Journal growth for big records: units ResizableFile.write / FileJournal.add (shared with C08). The argument packing inside the `replicated` decorator closure is unit replicated.newFunc; the frame '
   'introspection that installs the _vN copies is X4 (bounded stand-in of C17).',
-  assumptions=['T-PICKLE: len(dumps(entry)) > len(command)', 'A-PROTO-4'])
+  assumptions=['T-PICKLE: len(dumps(entry)) > len(command)', 'A-PROTO-4'], modules=SO_MODS + ['contracts.journal_units'])
 
 P('C12', ['applyLogEntries', 'doApplyCommand'],
   'Apply-loop contract with exceptional postcondition: no exception may escape, applied advances, subscribers fire exactly once.',
@@ -122,14 +123,15 @@ P('C17', ['replicated.newFunc', 'applyLogEntries', 'doApplyCommand', 'loadDumpFi
   bounded=['O17.1/O17.2/O17.7 (id enumeration in __init__, name table in __onSetCodeVersion, dispatch through the wrapper): exhaustive native '
            'enumeration over 160 generated old/new class pairs (<=2 object methods + 1 consumer method, versions in {0,1,2,3}), bounded, not proved'])
 
-P('C18', ['node-notifications', 'tick.election', 'msg.request_vote', 'msg.response_vote', 'tick.leader', 'hasQuorum', 'checkCommandsToApply', 'doChangeCluster'],
+P('C18', ['transport.incoming', 'transport.outgoingConnected', 'node-notifications', 'tick.election', 'msg.request_vote', 'msg.response_vote', 'tick.leader', 'hasQuorum', 'checkCommandsToApply', 'doChangeCluster'],
   'A node without own address never becomes candidate, never answers a vote request and stays FOLLOWER (O18.1); commit, fallback and '
   'has-quorum outcomes are independent of observers\' data (O18.2, proved by re-evaluating the rule with observers\' values havoc\'d); '
   'submissions through a non-leader are forwarded per C02.',
   '"Still converges to the same state" is liveness (C05-type) and not decided.',
-  assumptions=[], lemmas=['FRAME-C18'])
+  assumptions=[], lemmas=['FRAME-C18'], modules=SO_MODS + ['contracts.tr_units'])
 
-P('C20', ['tick.leader', 'tick.not-leader', 'hasQuorum', 'msg.next_node_idx', 'sendAppendEntries', 'doChangeCluster'],
+P('C20', ['tick.leader', 'tick.not-leader', 'hasQuorum', 'msg.next_node_idx', 'sendAppendEntries', 'doChangeCluster', 'node-notifications',
+          'msg.response_vote', 'tick.election'],
   'The leader block of _onTick keeps the leader role only if, at the clock value it reads, more than half of the voters (itself '
   'included) answered within leaderFallbackTimeout, otherwise it becomes FOLLOWER with no leader (O20.1); lastResponseTime is '
   'refreshed only on receipt of a reply / on election / on adding a member (O20.2 frame); hasQuorum is exactly the '
@@ -387,7 +389,8 @@ P('C13', ['tcp.parse', 'tcp.send', 'tcp.processSend', 'tcp.processRead', 'tcp.re
   assumptions=['no-crypto', 'A-RANGE: frame length < 2^31', 'messages are not None (None means "no message" in the parse loop)'])
 
 P('C14', ['transport.incoming', 'transport.dropNode', 'transport.shouldConnect', 'transport.send', 'transport.onDisconnected', 'tcp.disconnect',
-          'tcp.connectionTimeout', 'tcp.trySendBuffer', 'transport.addNode', 'transport.outgoingConnected', 'transport.connectIfNecessary'],
+          'tcp.connectionTimeout', 'tcp.trySendBuffer', 'transport.addNode', 'transport.outgoingConnected', 'transport.connectIfNecessary',
+          'transport.replacedConnection'],
   'Only the safety clauses a per-call contract can state: identity (a message is only ever delivered as coming from the member whose '
   'address the connection\'s first message named; unknown or removed addresses are disconnected and bound to nothing, O14.1), '
   'membership filter after dropNode (O14.2), single dialer per pair (O14.3), truthful send (O14.4), one disconnect notification '
